@@ -11,4 +11,5 @@ func moreFacts() {
 	c12Facts()
 	c09Facts()
 	c05Facts()
+	c10Facts()
 }
